@@ -158,6 +158,13 @@ structure DSt where
   dqCases : Nat := 0
   dqInterpreted : Nat := 0
   verbatimChecked : Nat := 0
+  nH : Nat := 0
+  nK : Nat := 0
+  nY : Nat := 0
+  layoutChecked : Nat := 0
+  sepJoined : Nat := 0
+  cachedChecked : Nat := 0
+  cachedDiverged : Nat := 0
   seen : Std.HashSet UInt64 := {}
   nontrivial : Nat := 0
   mismatches : Nat := 0
@@ -173,13 +180,14 @@ def setAssoc (l : List (Bytes × Val)) (k : Bytes) (v : Val) : List (Bytes × Va
   (k, v) :: l.filter (fun p => p.1 ≠ k)
 
 def DSt.objs (d : DSt) (svc : Bool) : List Obj := if svc then [d.svc, d.host, d.cmd] else [d.host, d.cmd]
+def DSt.look (d : DSt) (svc : Bool) : Bytes → Lookup := resolveMacro (d.objs svc)
 
 def mismatch (d : DSt) (n : Nat) (op kind impl model : String) : IO DSt := do
   IO.println s!"MISMATCH line={n} case={d.caseNo} op={op} kind={kind} impl={impl} model={model}"
   return { d with mismatches := d.mismatches + 1 }
 
-def specfail (d : DSt) (n : Nat) (cl : Clause) : IO DSt := do
-  IO.println s!"SPECFAIL line={n} case={d.caseNo} clause={cl.name}"
+def specfail (d : DSt) (n : Nat) (cl : Clause) (cls : String := "-") : IO DSt := do
+  IO.println s!"SPECFAIL line={n} case={d.caseNo} clause={cl.name} class={cls}"
   return { d with specfails := d.specfails + 1 }
 
 def countErr (d : DSt) : Err → DSt
@@ -198,48 +206,35 @@ def noteNontrivial (d : DSt) (line : String) : DSt :=
 
 /-! ### `std::sort` leaves the order inside a class of equal `order` open: membership instead of equality -/
 
-def groupByOrder : List RArg → List (List RArg)
-  | [] => []
-  | a :: as =>
-    match groupByOrder as with
-    | (x :: g) :: gs => if x.order = a.order then (a :: x :: g) :: gs else [a] :: (x :: g) :: gs
-    | gs => [a] :: gs
-
-def removeNth {α : Type} : List α → Nat → List α
-  | [], _ => []
-  | _ :: xs, 0 => xs
-  | x :: xs, n + 1 => x :: removeNth xs n
-
-/-- All remainders of `obs` after consuming every block once, in any order. -/
-def consumePerm : Nat → List (List Bytes) → List Bytes → List (List Bytes)
-  | 0, _, _ => []
-  | _, [], obs => [obs]
-  | fuel + 1, blocks, obs =>
-    (List.range blocks.length).flatMap fun i =>
-      match blocks[i]? with
-      | some blk => if blk.isPrefixOf obs then consumePerm fuel (removeNth blocks i) (obs.drop blk.length) else []
-      | none => []
-
-def consumeGroups : List (List (List Bytes)) → List (List Bytes) → List (List Bytes)
-  | [], rests => rests
-  | g :: gs, rests => consumeGroups gs (rests.flatMap (consumePerm (g.length + 1) g))
-
+/-- The model's argv modulo the order inside classes of equal `order`. -/
 def argvAllowed (base : List Bytes) (rs : List RArg) (obs : List Bytes) : Bool :=
-  if base.isPrefixOf obs then
-    let groups := (groupByOrder (sortArgs rs)).map (·.map emitArg)
-    (consumeGroups groups [obs.drop base.length]).any (·.isEmpty)
-  else false
+  base.isPrefixOf obs &&
+    (consumeClasses ((orderClasses rs).map (·.map emitArg)) [obs.drop base.length]).any (·.isEmpty)
 
 /-- Compare the implementation's resolved command with the model's, modulo sort ties.
     Returns `(equal, neededPermutation)`. -/
-def cmdAgrees (objs : List Obj) (cmd : Cmd) (args : Option (List ArgSpec)) (model impl : CmdOut) : Bool × Bool :=
+def cmdAgrees (look : Bytes → Lookup) (cmd : Cmd) (args : Option (List ArgSpec)) (model impl : CmdOut) : Bool × Bool :=
   if model = impl then (true, false) else
   match args, impl with
   | some as, .argv l =>
-    match resolveCommand objs 0 cmd true, resolveArgs objs 0 as with
+    match resolveCommand look 0 cmd true, resolveArgs look 0 as with
     | .ok (.argv base), .ok rs => (argvAllowed base rs l, true)
     | _, _ => (false, false)
   | _, _ => (false, false)
+
+/-- Spec clause `argv_layout` on an argv the IMPLEMENTATION produced (resolved command or what the plugin saw).
+    Which arguments are kept and what their values are comes from the model's value resolution; how they
+    are laid out is the specification's own statement (`specArgvLayout`). -/
+def layoutClause (d : DSt) (look : Bytes → Lookup) (cmd : Cmd) (args : Option (List ArgSpec)) (argv : List Bytes) : DSt × Option Clause :=
+  match args with
+  | some as =>
+    match resolveCommand look 0 cmd true, resolveArgs look 0 as with
+    | .ok (.argv base), .ok rs =>
+      let d := { d with layoutChecked := d.layoutChecked + 1,
+                        sepJoined := d.sepJoined + (rs.filter (fun a => a.sep.isSome && !a.skipKey && !a.skipValue)).length }
+      (d, specArgvLayout base rs argv)
+    | _, _ => (d, none)
+  | none => (d, none)
 
 /-! ### handlers -/
 
@@ -248,147 +243,297 @@ def parseImplRes (post : List String) : Option (Except String (String × String)
   | ["ok", v, m] => some (.ok (v, m))
   | ["ok", v] => some (.ok (v, ""))
   | ["err", k] => some (.error k)
+  | ["err", k, _] => some (.error k)
   | _ => none
+
+/-- One `ResolveMacros` result against the model under `look`. -/
+def checkM (d : DSt) (n : Nat) (line op : String) (look : Bytes → Lookup) (lvl : Nat) (esc : Bool) (s : Bytes)
+    (impl : Except String (String × String)) : IO DSt := do
+  let mut d := d
+  match resolveMacros look lvl esc (.str s) with
+  | .error .unsupported => return { d with unsupported := d.unsupported + 1 }
+  | .error e =>
+    d := noteNontrivial (countErr d e) line
+    if impl != .error (errName e) then d ← mismatch d n op "error" (toString (repr impl)) (errName e)
+    return d
+  | .ok (v, miss) =>
+    if miss then d := { d with missing := d.missing + 1 }
+    match v with | .arr _ => d := { d with arrays := d.arrays + 1 } | _ => pure ()
+    if s.contains DOLLAR then d := noteNontrivial d line
+    if impl != .ok (showVal v, showBool miss) then
+      d ← mismatch d n op "value" (toString (repr impl)) s!"{showVal v},{showBool miss}"
+    return d
 
 def handleM (d : DSt) (n : Nat) (line : String) (pre post : List String) : IO DSt := do
   match pre, parseImplRes post with
   | [svc, lvl, esc, hx], some impl =>
     match parseBool? svc, lvl.toNat?, parseBool? esc, unhex hx with
     | some svc, some lvl, some esc, some s =>
-      let mut d := { d with steps := d.steps + 1, nM := d.nM + 1 }
-      let m := resolveMacros (d.objs svc) lvl esc (.str s)
-      match m with
-      | .error .unsupported => return { d with unsupported := d.unsupported + 1 }
-      | .error e =>
-        d := noteNontrivial (countErr d e) line
-        if impl != .error (errName e) then d ← mismatch d n "M" "error" (toString (repr impl)) (errName e)
-        return d
-      | .ok (v, miss) =>
-        if miss then d := { d with missing := d.missing + 1 }
-        match v with | .arr _ => d := { d with arrays := d.arrays + 1 } | _ => pure ()
-        if s.contains DOLLAR then d := noteNontrivial d line
-        if impl != .ok (showVal v, showBool miss) then
-          d ← mismatch d n "M" "value" (toString (repr impl)) s!"{showVal v},{showBool miss}"
-        return d
+      checkM { d with steps := d.steps + 1, nM := d.nM + 1 } n line "M" (d.look svc) lvl esc s impl
     | _, _, _, _ => IO.println s!"BADLINE line={n}"; return d
   | _, _ => IO.println s!"BADLINE line={n}"; return d
+
+/-- One `ResolveArguments` result against the model under `look`; spec clause `argv_layout`. -/
+def checkG (d : DSt) (n : Nat) (line op : String) (look : Bytes → Lookup) (cmd : Cmd) (args : Option (List ArgSpec))
+    (impl : Except String (String × String)) : IO DSt := do
+  let mut d := d
+  match impl with
+  | .ok (v, _) =>
+    match parseCmdOut v with
+    | some (some (.argv l)) =>
+      let (d', c) := layoutClause d look cmd args l
+      d := d'
+      match c with | some c => d ← specfail d n c | none => pure ()
+    | _ => pure ()
+  | _ => pure ()
+  match resolveArguments look 0 cmd args with
+  | .error .unsupported => return { d with unsupported := d.unsupported + 1 }
+  | .error e =>
+    d := noteNontrivial (countErr d e) line
+    if impl != .error (errName e) then d ← mismatch d n op "error" (toString (repr impl)) (errName e)
+    return d
+  | .ok co =>
+    d := noteNontrivial d line
+    match impl with
+    | .ok (v, _) =>
+      match parseCmdOut v with
+      | some (some ico) =>
+        let (ok, perm) := cmdAgrees look cmd args co ico
+        if perm && ok then d := { d with tiePerm := d.tiePerm + 1 }
+        if !ok then d ← mismatch d n op "command" v (showCmdOut co)
+        return d
+      | _ => mismatch d n op "command" v (showCmdOut co)
+    | .error k => mismatch d n op "command" ("err:" ++ k) (showCmdOut co)
 
 def handleG (d : DSt) (n : Nat) (line : String) (pre post : List String) : IO DSt := do
   match pre with
   | svc :: rest =>
     match parseBool? svc, parseCmdArgs d.plugin rest, parseImplRes post with
     | some svc, some (cmd, args, []), some impl =>
-      let mut d := { d with steps := d.steps + 1, nG := d.nG + 1 }
-      let objs := d.objs svc
-      match resolveArguments objs 0 cmd args with
-      | .error .unsupported => return { d with unsupported := d.unsupported + 1 }
-      | .error e =>
-        d := noteNontrivial (countErr d e) line
-        if impl != .error (errName e) then d ← mismatch d n "G" "error" (toString (repr impl)) (errName e)
-        return d
-      | .ok co =>
-        d := noteNontrivial d line
-        match impl with
-        | .ok (v, _) =>
-          match parseCmdOut v with
-          | some (some ico) =>
-            let (ok, perm) := cmdAgrees objs cmd args co ico
-            if perm && ok then d := { d with tiePerm := d.tiePerm + 1 }
-            if !ok then d ← mismatch d n "G" "command" v (showCmdOut co)
-            return d
-          | _ => mismatch d n "G" "command" v (showCmdOut co)
-        | .error k => mismatch d n "G" "command" ("err:" ++ k) (showCmdOut co)
+      checkG { d with steps := d.steps + 1, nG := d.nG + 1 } n line "G" (d.look svc) cmd args impl
     | _, _, _ => IO.println s!"BADLINE line={n}"; return d
   | _ => IO.println s!"BADLINE line={n}"; return d
 
+/-! ### the `resolvedMacros` cache -/
+
+def parseCache (t : String) : Option (List (Bytes × Val)) :=
+  if t == "~" then some [] else
+  (t.splitOn "+").mapM fun e =>
+    match e.splitOn "=" with
+    | [nh, vt] => do
+      let nm ← unhex nh
+      let v ← parseVal vt
+      pure (nm, v)
+    | _ => none
+
+/-- Every entry the fill pass stored must be the model's value of that macro (after recursion, unescaped). -/
+def checkCache (d : DSt) (n : Nat) (op : String) (look : Bytes → Lookup) (fuel : Nat) (cache : List (Bytes × Val)) : IO DSt := do
+  let mut d := d
+  for (nm, v) in cache do
+    match cacheEntry look fuel nm with
+    | some mv => if mv ≠ v then d ← mismatch d n op "cache" s!"{hexOf nm}={showVal v}" (showVal mv)
+    | none => d ← mismatch d n op "cache" s!"{hexOf nm}={showVal v}" "absent"
+  return d
+
+/-- Class of a `cached_equals_direct` failure: the model explains it by a macro nested in a cached value that
+    was missing (the fill pass drops/fails the argument, the cache does not carry that fact). -/
+def divergenceClass (look : Bytes → Lookup) (fuel : Nat) (cache : List (Bytes × Val)) (modelExplains : Bool) : String :=
+  if modelExplains && cache.any (fun e => nestedMissing look fuel e.1) then "nested_missing" else "-"
+
+def handleH (d : DSt) (n : Nat) (line : String) (pre post : List String) : IO DSt := do
+  match pre, post with
+  | [svc, lvl, esc, hx], [st1, v1, m1, ch, st2, v2, m2] =>
+    match parseBool? svc, lvl.toNat?, parseBool? esc, unhex hx, parseCache ch, parseImplRes [st1, v1, m1], parseImplRes [st2, v2, m2] with
+    | some svc, some lvl, some esc, some s, some cache, some r1, some r2 =>
+      let look := d.look svc
+      let fuel := fuelOfLevel (lvl + 1)
+      let mut d := { d with steps := d.steps + 1, nH := d.nH + 1, cachedChecked := d.cachedChecked + 1 }
+      -- specification on the implementation's observations: same value (or both fail)
+      -- a fill pass that fails reports UNKNOWN on the scheduling node; nothing is sent to the executing node
+      let same := match r1, r2 with
+        | .ok (a, _), .ok (b, _) => a == b
+        | .error _, _ => true
+        | _, _ => false
+      let m1r := resolveMacros look lvl esc (.str s)
+      let m2r := resolveMacros (cacheLookup cache) lvl esc (.str s)
+      if !same then
+        let explains := (match m1r, r1 with | .ok (v, _), .ok (a, _) => showVal v == a | .error e, .error k => errName e == k | _, _ => false) &&
+                        (match m2r, r2 with | .ok (v, _), .ok (a, _) => showVal v == a | .error e, .error k => errName e == k | _, _ => false)
+        d := { d with cachedDiverged := d.cachedDiverged + 1 }
+        d ← specfail d n .cachedEqualsDirect (divergenceClass look fuel cache explains)
+      d ← checkM d n line "H" look lvl esc s r1
+      d ← checkCache d n "H" look fuel cache
+      checkM d n line "H2" (cacheLookup cache) lvl esc s r2
+    | _, _, _, _, _, _, _ => IO.println s!"BADLINE line={n}"; return d
+  | _, _ => IO.println s!"BADLINE line={n}"; return d
+
+def agreesCmd (look : Bytes → Lookup) (cmd : Cmd) (args : Option (List ArgSpec)) (impl : Except String (String × String)) : Bool :=
+  match resolveArguments look 0 cmd args, impl with
+  | .ok co, .ok (v, _) => match parseCmdOut v with | some (some ico) => (cmdAgrees look cmd args co ico).1 | _ => false
+  | .error e, .error k => errName e == k
+  | _, _ => false
+
+def handleK (d : DSt) (n : Nat) (line : String) (pre post : List String) : IO DSt := do
+  match pre, post with
+  | svc :: rest, [st1, c1, ch, st2, c2] =>
+    match parseBool? svc, parseCmdArgs d.plugin rest, parseCache ch, parseImplRes [st1, c1], parseImplRes [st2, c2] with
+    | some svc, some (cmd, args, []), some cache, some r1, some r2 =>
+      let look := d.look svc
+      let mut d := { d with steps := d.steps + 1, nK := d.nK + 1, cachedChecked := d.cachedChecked + 1 }
+      -- a fill pass that fails reports UNKNOWN on the scheduling node; nothing is sent to the executing node
+      let same := match r1, r2 with
+        | .ok (a, _), .ok (b, _) => a == b
+        | .error _, _ => true
+        | _, _ => false
+      if !same then
+        let explains := agreesCmd look cmd args r1 && agreesCmd (cacheLookup cache) cmd args r2
+        d := { d with cachedDiverged := d.cachedDiverged + 1 }
+        d ← specfail d n .cachedEqualsDirect (divergenceClass look 14 cache explains)
+      d ← checkG d n line "K" look cmd args r1
+      d ← checkCache d n "K" look 14 cache
+      checkG d n line "K2" (cacheLookup cache) cmd args r2
+    | _, _, _, _, _ => IO.println s!"BADLINE line={n}"; return d
+  | _, _ => IO.println s!"BADLINE line={n}"; return d
+
 def hasDq (s : Bytes) : Bool := s.contains 34 || s.contains 96
+
+structure RunObs where
+  ran : Bool
+  argv : List Bytes
+  recorded : Option CmdOut
+  state : Nat
+  exit : Int
+  out : Bytes
+  perf : List Bytes
+  gone : String
+
+def parseRunObs (post : List String) : Option RunObs :=
+  match post with
+  | [ran, argvh, rech, st, oex, oouth, perfh, gone] =>
+    match parseBool? ran, unhexList argvh, parseCmdOut rech, st.toNat?, oex.toInt?, unhex oouth, unhexList perfh with
+    | some ran, some argv, some recorded, some ostate, some oexit, some oout, some operf =>
+      some { ran := ran, argv := argv, recorded := recorded, state := ostate, exit := oexit, out := oout, perf := operf, gone := gone }
+    | _, _, _, _, _, _, _ => none
+  | _ => none
+
+/-- One end-to-end run: specification clauses on the observations, then model against implementation. -/
+def checkRun (d : DSt) (n : Nat) (op : String) (look : Bytes → Lookup) (cmd : Cmd) (args : Option (List ArgSpec))
+    (exit : Int) (out : Bytes) (tmo slp : Nat) (o : RunObs) : IO DSt := do
+  let mut d := d
+  let ran := o.ran
+  let argv := o.argv
+  let recorded := o.recorded
+  let timedOut := tmo > 0 && slp > tmo * 10
+  if ran then d := { d with spawned := d.spawned + 1 } else d := { d with notRun := d.notRun + 1 }
+  /- specification on the implementation's observations -/
+  let mut fails : List Clause := []
+  if timedOut then
+    d := { d with timeouts := d.timeouts + 1 }
+    match specTimeout o.state o.out (o.gone == "1") with | some c => fails := fails ++ [c] | none => pure ()
+  else if recorded.isNone then
+    match specFailed ran o.state o.exit with | some c => fails := fails ++ [c] | none => pure ()
+  else if ran then
+    match specExit exit o.state o.exit with | some c => fails := fails ++ [c] | none => pure ()
+    match specOutput exit out o.out o.perf with | some c => fails := fails ++ [c] | none => pure ()
+  match recorded with
+  | some r =>
+    if ran then
+      match specArgvOfCommand r argv with | some c => fails := fails ++ [c] | none => pure ()
+      let (d', c) := layoutClause d look cmd args argv
+      d := d'
+      match c with | some c => fails := fails ++ [c] | none => pure ()
+  | none => pure ()
+  match cmd, args with
+  | .str tmpl, none =>
+    if recorded.isSome then
+      let valueOf := fun (nm : Bytes) =>
+        if nm = [] then some [DOLLAR] else
+        match internalResolve look 14 false (DOLLAR :: (nm ++ [DOLLAR])) with
+        | .ok (v, _) => v.scalarBytes
+        | .error _ => none
+      if hasDq tmpl then
+        d := { d with dqCases := d.dqCases + 1 }
+      match specExpectedArgv tmpl valueOf with
+      | some ws =>
+        d := { d with verbatimChecked := d.verbatimChecked + 1 }
+        if !ran || argv ≠ ws then
+          fails := fails ++ [.stringCmdVerbatim]
+          if hasDq tmpl then d := { d with dqInterpreted := d.dqInterpreted + 1 }
+      | none => pure ()
+  | _, _ => pure ()
+  for c in fails do
+    d ← specfail d n c
+  /- model against implementation -/
+  match resolveArguments look 0 cmd args with
+  | .error .unsupported => return { d with unsupported := d.unsupported + 1 }
+  | .error e =>
+    d := countErr d e
+    if ran || recorded.isSome || o.state != 3 then
+      d ← mismatch d n op "error" s!"ran={ran},state={o.state}" (errName e)
+    return d
+  | .ok co =>
+    match recorded with
+    | none => mismatch d n op "command" "none" (showCmdOut co)
+    | some r =>
+      let (ok, perm) := cmdAgrees look cmd args co r
+      if perm && ok then d := { d with tiePerm := d.tiePerm + 1 }
+      if !ok then d ← mismatch d n op "command" (showCmdOut r) (showCmdOut co)
+      /- what the process received -/
+      match co with
+      | .argv _ =>
+        -- the recorded array is what the model allows; the plugin must have received it verbatim
+        match r with
+        | .argv l => if !ran || argv ≠ l then d ← mismatch d n op "argv" s!"{ran},{hexList argv}" (hexList l)
+        | _ => pure ()
+      | .sh sline =>
+        d := { d with shLines := d.shLines + 1 }
+        match shWords sline with
+        | .ok ws => if !ran || argv ≠ ws then d ← mismatch d n op "sh-argv" s!"{ran},{hexList argv}" (hexList ws)
+        | .error _ => d := { d with shOutside := d.shOutside + 1 }
+      if ran && !timedOut then
+        let mo := processFinished exit out
+        if mo.state != o.state || mo.exit != o.exit || mo.output != o.out || mo.perfdata != o.perf then
+          d ← mismatch d n op "result" s!"{o.state},{o.exit},{hexOf o.out},{hexList o.perf}"
+                s!"{mo.state},{mo.exit},{hexOf mo.output},{hexList mo.perfdata}"
+      return d
 
 def handleX (d : DSt) (n : Nat) (line : String) (pre post : List String) : IO DSt := do
   match pre with
   | svc :: rest =>
     match parseBool? svc, parseCmdArgs d.plugin rest with
     | some svc, some (cmd, args, [ex, outh, tmo, slp]) =>
-      match ex.toInt?, unhex outh, tmo.toNat?, slp.toNat?, post with
-      | some exit, some out, some tmo, some slp, [ran, argvh, rech, st, oex, oouth, perfh, gone] =>
-        match parseBool? ran, unhexList argvh, parseCmdOut rech, st.toNat?, oex.toInt?, unhex oouth, unhexList perfh with
-        | some ran, some argv, some recorded, some ostate, some oexit, some oout, some operf =>
-          let mut d := { d with steps := d.steps + 1, nX := d.nX + 1 }
-          d := noteNontrivial d line
-          let objs := d.objs svc
-          let timedOut := tmo > 0 && slp > tmo * 10
-          if ran then d := { d with spawned := d.spawned + 1 } else d := { d with notRun := d.notRun + 1 }
-          /- specification on the implementation's observations -/
-          let mut fails : List Clause := []
-          if timedOut then
-            d := { d with timeouts := d.timeouts + 1 }
-            match specTimeout ostate oout (gone == "1") with | some c => fails := fails ++ [c] | none => pure ()
-          else if recorded.isNone then
-            match specFailed ran ostate oexit with | some c => fails := fails ++ [c] | none => pure ()
-          else if ran then
-            match specExit exit ostate oexit with | some c => fails := fails ++ [c] | none => pure ()
-            match specOutput exit out oout operf with | some c => fails := fails ++ [c] | none => pure ()
-          match recorded with
-          | some r =>
-            if ran then
-              match specArgvOfCommand r argv with | some c => fails := fails ++ [c] | none => pure ()
-          | none => pure ()
-          match cmd, args with
-          | .str tmpl, none =>
-            if recorded.isSome then
-              let valueOf := fun (nm : Bytes) =>
-                if nm = [] then some [DOLLAR] else
-                match internalResolve objs 14 false (DOLLAR :: (nm ++ [DOLLAR])) with
-                | .ok (v, _) => v.scalarBytes
-                | .error _ => none
-              if hasDq tmpl then
-                d := { d with dqCases := d.dqCases + 1 }
-              match specExpectedArgv tmpl valueOf with
-              | some ws =>
-                d := { d with verbatimChecked := d.verbatimChecked + 1 }
-                if !ran || argv ≠ ws then
-                  fails := fails ++ [.stringCmdVerbatim]
-                  if hasDq tmpl then d := { d with dqInterpreted := d.dqInterpreted + 1 }
-              | none => pure ()
-          | _, _ => pure ()
-          for c in fails do
-            d ← specfail d n c
-          /- model against implementation -/
-          match resolveArguments objs 0 cmd args with
-          | .error .unsupported => return { d with unsupported := d.unsupported + 1 }
-          | .error e =>
-            d := countErr d e
-            if ran || recorded.isSome || ostate != 3 then
-              d ← mismatch d n "X" "error" s!"ran={ran},state={ostate}" (errName e)
-            return d
-          | .ok co =>
-            match recorded with
-            | none => mismatch d n "X" "command" "none" (showCmdOut co)
-            | some r =>
-              let (ok, perm) := cmdAgrees objs cmd args co r
-              if perm && ok then d := { d with tiePerm := d.tiePerm + 1 }
-              if !ok then d ← mismatch d n "X" "command" (showCmdOut r) (showCmdOut co)
-              /- what the process received -/
-              match co with
-              | .argv _ =>
-                -- the recorded array is what the model allows; the plugin must have received it verbatim
-                match r with
-                | .argv l => if !ran || argv ≠ l then d ← mismatch d n "X" "argv" s!"{ran},{hexList argv}" (hexList l)
-                | _ => pure ()
-              | .sh sline =>
-                d := { d with shLines := d.shLines + 1 }
-                match shWords sline with
-                | .ok ws => if !ran || argv ≠ ws then d ← mismatch d n "X" "sh-argv" s!"{ran},{hexList argv}" (hexList ws)
-                | .error _ => d := { d with shOutside := d.shOutside + 1 }
-              if ran && !timedOut then
-                let mo := processFinished exit out
-                if mo.state != ostate || mo.exit != oexit || mo.output != oout || mo.perfdata != operf then
-                  d ← mismatch d n "X" "result" s!"{ostate},{oexit},{hexOf oout},{hexList operf}"
-                        s!"{mo.state},{mo.exit},{hexOf mo.output},{hexList mo.perfdata}"
-              return d
-        | _, _, _, _, _, _, _ => IO.println s!"BADLINE line={n}"; return d
+      match ex.toInt?, unhex outh, tmo.toNat?, slp.toNat?, parseRunObs post with
+      | some exit, some out, some tmo, some slp, some o =>
+        let d := noteNontrivial { d with steps := d.steps + 1, nX := d.nX + 1 } line
+        checkRun d n "X" (d.look svc) cmd args exit out tmo slp o
       | _, _, _, _, _ => IO.println s!"BADLINE line={n}"; return d
     | _, _ => IO.println s!"BADLINE line={n}"; return d
   | _ => IO.println s!"BADLINE line={n}"; return d
+
+def handleY (d : DSt) (n : Nat) (line : String) (pre post : List String) : IO DSt := do
+  match pre, post with
+  | svc :: rest, ch :: fillRan :: obs =>
+    match parseBool? svc, parseCmdArgs d.plugin rest, parseCache ch, parseBool? fillRan, parseRunObs (obs.take 8), parseRunObs (obs.drop 8) with
+    | some svc, some (cmd, args, [ex, outh]), some cache, some fillRan, some o1, some o2 =>
+      match ex.toInt?, unhex outh with
+      | some exit, some out =>
+        let look := d.look svc
+        let mut d := noteNontrivial { d with steps := d.steps + 1, nY := d.nY + 1, cachedChecked := d.cachedChecked + 1 } line
+        -- specification on the implementation's observations
+        if fillRan then d ← specfail d n .fillNotRun
+        let same := o1.recorded.isNone || (o1.ran == o2.ran && o1.argv == o2.argv && o1.state == o2.state && o1.out == o2.out)
+        if !same then
+          let r1 : Except String (String × String) := match o1.recorded with | some c => .ok (showCmdOut c, "") | none => .error "required"
+          let r2 : Except String (String × String) := match o2.recorded with | some c => .ok (showCmdOut c, "") | none => .error "required"
+          let explains := agreesCmd look cmd args r1 && agreesCmd (cacheLookup cache) cmd args r2
+          d := { d with cachedDiverged := d.cachedDiverged + 1 }
+          d ← specfail d n .cachedEqualsDirect (divergenceClass look 14 cache explains)
+        d ← checkRun d n "Y" look cmd args exit out 0 0 o1
+        d ← checkCache d n "Y" look 14 cache
+        checkRun d n "Y2" (cacheLookup cache) cmd args exit out 0 0 o2
+      | _, _ => IO.println s!"BADLINE line={n}"; return d
+    | _, _, _, _, _, _ => IO.println s!"BADLINE line={n}"; return d
+  | _, _ => IO.println s!"BADLINE line={n}"; return d
 
 def handleP (d : DSt) (n : Nat) (line : String) (pre post : List String) : IO DSt := do
   match pre, post with
@@ -443,6 +588,14 @@ def handle (d : DSt) (n : Nat) (line : String) : IO DSt := do
   | "M" :: rest => handleM d n line rest post
   | "G" :: rest => handleG d n line rest post
   | "X" :: rest => handleX d n line rest post
+  | "H" :: _ | "K" :: _ | "Y" :: _ =>
+    if post.any (fun w => (w.splitOn "+").any (·.endsWith "=X")) then
+      return { d with steps := d.steps + 1, unsupported := d.unsupported + 1 }   -- a nested array in the cache
+    else match pre with
+      | "H" :: rest => handleH d n line rest post
+      | "K" :: rest => handleK d n line rest post
+      | "Y" :: rest => handleY d n line rest post
+      | _ => return d
   | "P" :: rest => handleP d n line rest post
   | ["E", ex] =>
     match ex.toInt?, post with
@@ -474,4 +627,4 @@ def handle (d : DSt) (n : Nat) (line : String) : IO DSt := do
 def main : IO Unit := do
   let stdin ← IO.getStdin
   let d ← foldLines stdin handle ({} : DSt)
-  IO.println s!"STATS cases={d.caseNo} steps={d.steps} macro_strings={d.nM} resolutions={d.nG} spawns={d.nX} outputs={d.nP} exits={d.nE} sh_lines={d.nW} err_recursion={d.errRec} err_unclosed={d.errUnclosed} err_mixing={d.errMixing} err_required={d.errRequired} unsupported={d.unsupported} missing={d.missing} arrays={d.arrays} sh_checked={d.shLines} sh_outside={d.shOutside} tie_permutations={d.tiePerm} ran={d.spawned} not_run={d.notRun} timeouts={d.timeouts} dq_cases={d.dqCases} dq_interpreted={d.dqInterpreted} verbatim_checked={d.verbatimChecked} nontrivial={d.nontrivial} mismatches={d.mismatches} specfails={d.specfails}"
+  IO.println s!"STATS cases={d.caseNo} steps={d.steps} macro_strings={d.nM} resolutions={d.nG} spawns={d.nX} cached_macro_strings={d.nH} cached_resolutions={d.nK} cached_spawns={d.nY} cached_checked={d.cachedChecked} cached_diverged={d.cachedDiverged} layout_checked={d.layoutChecked} sep_joined={d.sepJoined} outputs={d.nP} exits={d.nE} sh_lines={d.nW} err_recursion={d.errRec} err_unclosed={d.errUnclosed} err_mixing={d.errMixing} err_required={d.errRequired} unsupported={d.unsupported} missing={d.missing} arrays={d.arrays} sh_checked={d.shLines} sh_outside={d.shOutside} tie_permutations={d.tiePerm} ran={d.spawned} not_run={d.notRun} timeouts={d.timeouts} dq_cases={d.dqCases} dq_interpreted={d.dqInterpreted} verbatim_checked={d.verbatimChecked} nontrivial={d.nontrivial} mismatches={d.mismatches} specfails={d.specfails}"
